@@ -4,6 +4,8 @@ type screen struct {
 	buf  [][]Cell
 	rows int
 	cols int
+	// wide tells which rows have held a character wider than one cell
+	wide []bool
 }
 
 func newScreen() *screen {
@@ -21,27 +23,70 @@ func (s *screen) resize(cols int, rows int) {
 	for row := range s.buf {
 		s.buf[row] = make([]Cell, cols)
 	}
+	s.wide = make([]bool, rows)
 	s.rows = rows
 	s.cols = cols
 }
 
-// Set a cell at col, row
-func (s *screen) setCell(col int, row int, text Cell) {
+// Set a cell at col, row. Reports whether the cell lies on the screen
+func (s *screen) setCell(col int, row int, text Cell) bool {
 	if col < 0 || row < 0 {
-		return
+		return false
 	}
 	if col >= s.cols {
-		return
+		return false
 	}
 	if row >= s.rows {
-		return
+		return false
 	}
 	if text.Width > 1 && col+text.Width > s.cols {
 		// A wide character in the last column would hang over the
 		// edge of the screen
-		return
+		return false
 	}
-	s.buf[row][col] = text
+	line := s.buf[row]
+	end := col + 1
+	if text.Width > 1 {
+		end = col + text.Width
+		s.wide[row] = true
+	}
+	if s.wide[row] {
+		// A terminal shows a wide character in all of its cells or not at
+		// all, and the cell set last is the one to show: a wide character
+		// that has one of its cells where this cell goes can no longer be
+		// displayed and turns into blanks of its style
+		for i := wideStart(line, col); i < end; i += 1 {
+			if wide := line[i]; wide.Width > 1 {
+				for j := i; j < i+wide.Width; j += 1 {
+					line[j] = Cell{
+						Character: Character{Grapheme: " ", Width: 1},
+						Style:     wide.Style,
+					}
+				}
+			}
+		}
+	}
+	// Nothing is kept under a wide character
+	for i := col + 1; i < end; i += 1 {
+		line[i] = Cell{}
+	}
+	line[col] = text
+	return true
+}
+
+// wideStart returns the column of the wide character which covers col from the
+// left, or col if there is none
+func wideStart(line []Cell, col int) int {
+	for i := col - 1; i >= 0; i -= 1 {
+		if i+line[i].Width > col {
+			return i
+		}
+		if line[i].Grapheme != "" || line[i].sixel {
+			// Only empty cells lie under a wide character
+			break
+		}
+	}
+	return col
 }
 
 func (s *screen) setStyle(col int, row int, style Style) {
